@@ -120,13 +120,9 @@ func (cache *DefaultPortalCache) Execute(ctx context.Context, name string, reade
 	cache.mu.Lock()
 	defer cache.mu.Unlock()
 
-	if cache.portals == nil {
-		return nil
-	}
-
 	portal, has := cache.portals[name]
 	if !has {
-		return nil
+		return NewErrUnkownStatement(name)
 	}
 
 	return portal.statement.fn(ctx, NewDataWriter(ctx, portal.statement.columns, portal.formats, reader, writer), portal.parameters)
